@@ -29,6 +29,7 @@ func checkC07(c *Ctx, e *Env) {
 		return
 	}
 	noteUndecided(c, m, r, "C07.E1")
+	importObligations(c, e, checkC03, "C03", "C07.ASKDENOM", "sell orders#filed-under-their-ask-denomination", "BuyDirect compares the bid with the denomination of the order's market; that is the denomination the seller asked for only if Sell / UpdateSellOrders file every order under a market of exactly the requested denomination", func(o *Oblig) bool { return o.Rule == "C03.ASKDENOM" })
 	ruleArith(c, e, "C07.ARITH", func(ep *EntryPoint) bool { return ep.Kind == "msg" && ep.Key() == "marketplace.BuyDirect" })
 	pos := p.Pos(h.Fn.Pos())
 	type agg struct {
